@@ -68,8 +68,8 @@ type c01Host struct {
 	conn    *mconn
 	utp     *portalwire.UtpTransportService
 	utpIn   func(*enode.Node, *net.UDPAddr, []byte) []byte // the "utp" TALKREQ handler
-	senders [2]*enode.Node                                 // 0: in every table, versions {0,1} (-> 1); 1: in no table, no version entry (-> 0)
-	addrs   [2]*net.UDPAddr
+	senders [3]*enode.Node                                 // 0: in every table, versions {0,1} (-> 1); 1: in no table, no version entry (-> 0); 2: in no table, versions {2} (-> 2, which the node advertises but only partly implements)
+	addrs   [3]*net.UDPAddr
 	peers   []*enode.Node // further table entries (and the records of NODES / ENRS replies)
 	// sender 0 is also a live discv5 endpoint with a uTP service of its own. It is mute (wire.mute)
 	// except during a uTP exchange of part (5).
@@ -97,13 +97,22 @@ func c01Endpoint(w *mwire, keyIdx int, ip net.IP, port int) (*mconn, *enode.Loca
 	ln.SetStaticIP(ip)
 	ln.SetFallbackUDP(port)
 	ln.Set(portalwire.Tag)
-	ln.Set(versEntry{0, 1})
+	ln.Set(versEntry(c01Versions(keyIdx)))
 	ln.Node() // sign before any goroutine exists (LocalNode.Node sleeps under its mutex when re-signing)
 	d5, err := discover.ListenV5(conn, ln, quietD5Config(key, nil))
 	if err != nil {
 		panic(err)
 	}
 	return conn, ln, d5
+}
+
+// c01Versions: the node under test advertises {0,1,2} - a non-default list an operator may configure
+// (a version listed but not implemented by every code path); its peer endpoint the default {0,1}.
+func c01Versions(keyIdx int) []uint8 {
+	if keyIdx == c01HostKey {
+		return []uint8{0, 1, 2}
+	}
+	return []uint8{0, 1}
 }
 
 // newC01Host must run inside the bubble.
@@ -132,8 +141,8 @@ func newC01Host() *c01Host {
 		panic(err)
 	}
 	h.wire.mute = true
-	h.senders = [2]*enode.Node{pln.Node(), signedNode(detKey(c01HostKey+2), 1, net.IP{10, 0, 3, 2}, 9201)}
-	h.addrs = [2]*net.UDPAddr{{IP: net.IP{10, 0, 3, 1}, Port: 9200}, {IP: net.IP{10, 0, 3, 2}, Port: 9201}}
+	h.senders = [3]*enode.Node{pln.Node(), signedNode(detKey(c01HostKey+2), 1, net.IP{10, 0, 3, 2}, 9201), signedNode(detKey(c01HostKey+3), 1, net.IP{10, 0, 3, 3}, 9202, versEntry{2})}
+	h.addrs = [3]*net.UDPAddr{{IP: net.IP{10, 0, 3, 1}, Port: 9200}, {IP: net.IP{10, 0, 3, 2}, Port: 9201}, {IP: net.IP{10, 0, 3, 3}, Port: 9202}}
 	for i := 0; i < 32; i++ {
 		h.peers = append(h.peers, signedNode(detKey(c01HostKey+10+i), 1, net.IP{10, 0, byte(4 + i), 1}, 9300+i))
 	}
